@@ -563,7 +563,7 @@ def r_restore(ctx, view, Q, only=None):
     if di:
         dfn = method(prog, di[0], "drop")
         loc = dfn.loc()
-        hb = [bb for (bb, name, args, site) in restorer_calls(view, Q, dfn) if name == "heap_build" and args and strip(args[0])[0] == "field" and strip(args[0])[2] == "pq"]
+        hb = [bb for (bb, name, args, site) in restorer_calls(view, Q, dfn) if name == "heap_build" and args and strip(args[0])[0] == "field" and strip(args[0])[2] in (prog.carrier_fields - {"store"})]
         esc = dfn.cfg.escape_path(0, set(hb)) if hb and 0 not in hb else (None if hb else [0])
         ok = bool(hb) and esc is None
         why = "Drop::drop calls heap_build(self.pq) on every path" if ok else "a path through Drop::drop avoids heap_build(self.pq): %s" % esc
